@@ -157,8 +157,49 @@ let of_normalized ((main, final), sources) =
   L [A "val"; of_nf main; of_opt of_nf final;
      of_list (function Proj i -> L [A "proj"; of_int (int_of_nat i)] | Agg i -> L [A "agg"; of_int (int_of_nat i)]) sources]
 
+(* ---- C11: the damage state machine ------------------------------------------------------------ *)
+
+let to_held x = match atom x with
+  | "none" -> PoolSM.HNone | "ingest" -> PoolSM.HIngest | "table" -> PoolSM.HTable
+  | "ingesttable" -> PoolSM.HIngestTable | _ -> bad "held" x
+
+let to_req x = match atom x with
+  | "query" -> PoolSM.RQuery | "ingest" -> PoolSM.RIngest | "flush" -> PoolSM.RFlush | "stats" -> PoolSM.RStats
+  | _ -> bad "req" x
+
+let to_obs x = match x with
+  | A "ok" -> PoolSM.OOk
+  | A "err" -> PoolSM.OErr
+  | L [A "panic"; h] -> PoolSM.OCallerPanic (to_held h)
+  | L [A "canceled"; n] -> PoolSM.OCanceled (nat_of_int (to_int n))
+  | L [A "hang"; n; h] -> PoolSM.OHang (nat_of_int (to_int n), to_held h)
+  | A "flushlost" -> PoolSM.OFlushLost
+  | _ -> bad "obs" x
+
+let of_obs = function
+  | PoolSM.OOk -> A "ok"
+  | PoolSM.OErr -> A "err"
+  | PoolSM.OCallerPanic _ -> A "panic"
+  | PoolSM.OCanceled _ -> A "canceled"
+  | PoolSM.OHang (_, _) -> A "hang"
+  | PoolSM.OFlushLost -> A "flushlost"
+
+let canary inp =
+  match inp with
+  | L (A "scenario" :: threads :: rounds) ->
+      let d = { PoolSM.alive = nat_of_int (to_int threads); PoolSM.ingest_poisoned = false;
+                PoolSM.table_poisoned = false; PoolSM.flush_dead = false } in
+      let rs = Stdlib.List.map (fun rd -> Stdlib.List.map (fun ro -> match ro with
+        | L [k; o] -> (to_req k, to_obs o)
+        | _ -> bad "request" ro) (lst rd)) rounds in
+      L (Stdlib.List.map (function
+        | Some os -> L (Stdlib.List.map of_obs os)
+        | None -> A "inconsistent") (PoolSM.run_checked d rs))
+  | _ -> bad "scenario" inp
+
 let run (entry : string) (inp : Sx.t) : Sx.t =
   match entry with
+  | "canary" -> canary inp
   | "parse" -> of_result of_query (parse_query (to_parsed inp))
   | "normalize" -> of_result of_normalized (parse_and_normalize (to_parsed inp))
   | "names" ->
